@@ -187,11 +187,12 @@ class C09Antenna(Machine):
                 if self.cfg.get("delay_steps") and rng.chance(0.4):
                     w["fine"] = True
                     w["frac"] = 0
-            op = {"op": "receive", "w": w, "amp": rng.pick([0.1, 0.5, 1.0, 3.0]),
+            # (an all-zero signal - e.g. cross-polarised - is still a received signal)
+            op = {"op": "receive", "w": w, "amp": rng.pick([0.1, 0.5, 1.0, 3.0, 1.0, 0.5, 0.0]),
                   "center": rng.random(), "width": rng.pick([1.5, 4.0, 10.0]),
                   "vtype": rng.pick(["voltage", "field"]), "pair": rng.chance(0.3),
                   "direction": rng.pick([None, [1, 0, 0.3], [0.2, -1, 0.5]]),
-                  "sharp": rng.chance(0.4)}
+                  "sharp": rng.chance(0.4), "caller_edits": rng.chance(0.25)}
             if self.cfg["kind"] == "dipole":
                 op["amp"] *= 1e-5
             return op
@@ -305,6 +306,13 @@ class C09Antenna(Machine):
         if len(s.times) != len(t) or not np.array_equal(np.asarray(s.times), t):
             raise Violation("C09:signal-grid", "stored signal is not on the received signal's time grid")
         self.sigs.append((np.array(s.times, dtype=float), np.array(s.values, dtype=float)))
+        if op.get("caller_edits"):
+            # the caller goes on using its own signal object (and the time array it built it
+            # from): what the antenna has received is not affected
+            sig *= -3.0
+            sig.shift(7 * self.cfg["dt"])
+            t += 1e-6
+            self.count("probe.caller_edits_after_receive")
         self._mark_change()
         return ["receive", len(self.sigs)]
 
